@@ -2,6 +2,7 @@
 import os
 
 import c04_api
+import c19
 import x06rl
 import serve_common as sc
 
@@ -33,3 +34,9 @@ def run(ctx, replay):
     if os.path.exists(ov):
         os.remove(ov)
     x06rl.run_tier(ctx)
+    # the AD clause on SYNTHESISED denials (RFC 8020 cut served from bytes or from the Msg body), EcsDenial.tla
+    ctx.overlay_tags.add("c19")
+    ov = os.path.join(ctx.scratch, "overlay.json")
+    if os.path.exists(ov):
+        os.remove(ov)
+    c19.denial_family(ctx, thorough, focus="c06")
